@@ -321,7 +321,7 @@ func evID(ev any) int {
 func cases(thorough bool) []tcase {
 	n := 3
 	if thorough {
-		n = 4
+		n = 5
 	}
 	var l []tcase
 	for length := 1; length <= n; length++ {
